@@ -348,10 +348,10 @@ fn gen_c11(tier: &Tier, rng: &mut Rng, _w: usize, nw: usize, out: &mut Vec<Case>
             let k = if rng.chance(1, 2) { "io" } else { "mem" };
             out.push(
                 Case::new("eof-midstream", vec![
-                    format!("rdr {} {} {} {} E {}", k, ct, calls('n', 2 * ncalls), tok(&s[..j]), tok(&s[j..])),
+                    format!("rdr {} {} {} {} {} {}", k, ct, calls(*rng.pick(&['n', 'N']), 2 * ncalls), tok(&s[..j]), if k == "io" { *rng.pick(&["E", "Ee", "Ex"]) } else { "E" }, tok(&s[j..])),
                     format!("rdr {} {} {} {}", k, ct, calls('n', ncalls), tok(&s[..j])),
                     format!("rdr {} {} {} {}", k, ct, calls('n', ncalls), tok(&s[j..])),
-                    format!("rdr {} {} {} {} E {}", k, ct, calls('r', 2 * ncalls), tok(&s[..j]), tok(&s[j..])),
+                    format!("rdr {} {} {} {} {} {}", k, ct, calls(*rng.pick(&['r', 'R']), 2 * ncalls), tok(&s[..j]), if k == "io" { *rng.pick(&["E", "Ee", "Ex"]) } else { "E" }, tok(&s[j..])),
                 ]),
             );
         } else {
@@ -360,7 +360,7 @@ fn gen_c11(tier: &Tier, rng: &mut Rng, _w: usize, nw: usize, out: &mut Vec<Case>
             let ncalls = s.len() / 8 + 6;
             out.push(
                 Case::new("other-error", vec![
-                    format!("rdr io {} {} {} O {}", ct, calls('n', 2 * ncalls), tok(&s[..j]), tok(&s[j..])),
+                    format!("rdr io {} {} {} O{} {}", ct, calls(*rng.pick(&['n', 'n', 'N', 'r', 'R']), 2 * ncalls), tok(&s[..j]), (b'a' + rng.below(16) as u8) as char, tok(&s[j..])),
                     format!("rdr io {} {} {}", ct, calls('n', ncalls), tok(&s[..j])),
                     format!("rdr io {} {} {}", ct, calls('n', ncalls), tok(&s[j..])),
                 ]),
@@ -402,6 +402,20 @@ fn gen_c03(tier: &Tier, rng: &mut Rng, _w: usize, nw: usize, out: &mut Vec<Case>
                 Case::new("valid-long-tlf", vec![format!("parse {}", tok(&x)), format!("stream {} 2", tok(&x))])
                     .with_aux(vec![format!("F[{}]", ast), format!("MS{}", &ast[1..])]),
             );
+        }
+    }
+    // minimal 8-byte list entries, the list response as last message, both checksum forms
+    for (k, n) in [0usize, 1, 2, 3, 7, 8, 9, 15, 16, 17, 40].iter().enumerate() {
+        if k % nw == _w {
+            for short in [false, true] {
+                for with_open in [false, true] {
+                    let (x, f) = minimal_list_file(rng, *n, *n, short, with_open);
+                    out.push(
+                        Case::new("valid-minimal-entries", vec![format!("parse {}", tok(&x)), format!("stream {} 2", tok(&x))])
+                            .with_aux(vec![show_gfile(&f), show_gevents(&f).join(" ")]),
+                    );
+                }
+            }
         }
     }
     // checksum sent in its short one-byte form, alone and followed by further messages
@@ -496,6 +510,17 @@ fn mutant(rng: &mut Rng, reals: &[Vec<u8>]) -> Vec<u8> {
 }
 
 fn gen_c04(tier: &Tier, rng: &mut Rng, _w: usize, nw: usize, out: &mut Vec<Case>) {
+    // the same with minimal 8-byte entries and the list response as the last message
+    for (k, actual) in [0usize, 1, 2, 3, 7, 8, 15, 16, 40].iter().enumerate() {
+        if k % nw == _w {
+            for declared in [actual + 1, actual + 2, 2 * actual + 3, 255, 70000] {
+                for short in [false, true] {
+                    let (x, _) = minimal_list_file(rng, declared, *actual, short, k % 2 == 0);
+                    out.push(Case::new("wrong-arity", vec![format!("parse {}", tok(&x)), format!("stream {} 2", tok(&x))]));
+                }
+            }
+        }
+    }
     // declared list length ≠ number of entries present, checksum correct: must be rejected
     for (k, actual) in [0usize, 1, 14, 15, 16, 40, 46, 255, 256, 372, 743, 744, 745, 1000, 65535, 65536].iter().enumerate() {
         if k % nw == _w {
@@ -524,6 +549,17 @@ fn gen_c04(tier: &Tier, rng: &mut Rng, _w: usize, nw: usize, out: &mut Vec<Case>
 }
 
 fn gen_c09(tier: &Tier, rng: &mut Rng, _w: usize, nw: usize, out: &mut Vec<Case>) {
+    // the same with minimal 8-byte entries and the list response as the last message
+    for (k, actual) in [0usize, 1, 2, 3, 7, 8, 15, 16, 40].iter().enumerate() {
+        if k % nw == _w {
+            for declared in [actual + 1, actual + 2, 2 * actual + 3, 255, 70000] {
+                for short in [false, true] {
+                    let (x, _) = minimal_list_file(rng, declared, *actual, short, k % 2 == 0);
+                    out.push(Case::new("wrong-arity", vec![format!("parse {}", tok(&x)), format!("stream {} 2", tok(&x))]));
+                }
+            }
+        }
+    }
     // declared list length ≠ number of entries present, checksum correct: must be rejected
     for (k, actual) in [0usize, 1, 14, 15, 16, 40, 46, 255, 256, 372, 743, 744, 745, 1000, 65535, 65536].iter().enumerate() {
         if k % nw == _w {
